@@ -599,6 +599,16 @@ func c16(e *Env) {
 			w.Violate("c16-outage", "outage-nonzero-with-control-connection", fmt.Sprintf("OutageDuration is %v while the control connection is up", d))
 			return
 		}
+		if controlNode() == nil {
+			// the proxy reports no outage, so it has a control connection: one on which it asked
+			// for the cluster's events (anything else cannot follow the topology)
+			if !w.RunUntil(func() bool { return controlNode() != nil }, bound) {
+				if !w.Stopped() {
+					w.Violate("c16-control", "control-connection-not-registered-for-events", fmt.Sprintf("the proxy reports no outage, but for %v no connection of it has registered for events at any node", bound))
+				}
+				return
+			}
+		}
 		old := controlNode()
 		keepDown := len(w.Nodes) > 1 && c.Choose("keepdown", 2) == 1
 		simultaneous := c.Choose("simul", 2) == 1
